@@ -430,5 +430,30 @@ def order_and_endian_rules(R):
         if not ok:
             R.viol("C11.self-first", "self-after-cut", "get_all_close_peers_in_range_or_close_group removes the client's own id after the peers were sorted and cut: the answer is one short / misses the next nearest peer", gc, gc.lines[0])
         R.inst("C11.self-first", "K5 must-follow", "self is removed before sort_peers_by_address, never after", len(srt) + len(ret), ok)
+    # the K closest local peers (who may pay / hold / be challenged / define the responsible range): either the routing table's own
+    # distance-ordered iterator for this node's key, cut afterwards — or, when the list is ordered here, the ordering comes first and the
+    # cut after it.  Cutting bucket order to K and sorting the survivors keeps an arbitrary part of the boundary bucket.
+    kc = R.body("C11.kclosest", "ant_networking::driver::SwarmDriver::get_closest_k_value_local_peers")
+    if kc is not None:
+        prep(kc)
+        g = cfg_of(kc)
+        items = [b_ for b_ in F.item(kc.path)]
+        def _calls(pred):
+            return [blk["id"] for blk in kc.blocks if blk["term"]["k"] == "call" and not blk["cleanup"] and pred(blk["term"].get("ngen") or blk["term"].get("ncallee") or "")]
+        lib = _calls(lambda n: n.endswith("Behaviour::get_closest_local_peers") or n.endswith("Behaviour<TStore>::get_closest_local_peers"))
+        cuts = _calls(lambda n: n.endswith(("Iterator::take", "Vec::truncate", "Vec<T, A>::truncate", "Vec::split_off", "Vec::drain", "Iterator::take_while", "Iterator::step_by", "Iterator::skip")))
+        sorts = _calls(lambda n: n.split("::")[-1] in ("sort", "sort_by", "sort_by_key", "sort_unstable", "sort_unstable_by", "sort_unstable_by_key", "sort_by_cached_key") or n.endswith("sort_peers_by_address") or n.endswith("sort_peers_by_key"))
+        inner_cuts = any(callee_matches(blk["term"], ["*Iterator::take", "*::truncate"]) for c_ in items if c_ is not kc for blk in c_.blocks if blk["term"]["k"] == "call" and not blk["cleanup"])
+        if lib:
+            # the library orders by distance to the key it is handed: this node's own id
+            selfk = Taint(kc, through="all").closure({d for d, r, p in field_reads(kc, "self_peer_id")})
+            okk = all(op_local(g.term(x)["args"][1]) in selfk for x in lib) and not inner_cuts
+            why = "get_closest_local_peers is not asked for this node's own key"
+        else:
+            okk = bool(sorts) and not (set(cuts) & g.reach((0,), avoid=set(sorts))) and not inner_cuts
+            why = "the routing table's entries are cut to K before they are ordered by distance (or never ordered)"
+        if not okk:
+            R.viol("C11.kclosest", "cut-before-order", "get_closest_k_value_local_peers: %s — the K kept are not the K nearest" % why, kc, kc.lines[0])
+        R.inst("C11.kclosest", "K5 must-precede", "the K closest local peers are cut from a distance-ordered sequence (library iterator for self, or sort before take)", len(lib) + len(sorts) + len(cuts), okk)
     from props.C01 import store_rules
     store_rules(R, "C11.store")
